@@ -54,7 +54,7 @@ impl Regex {
                            Clause('pipeline.language', 'lang(r.ast) == %s' % W, ['C01', 'C02', 'C08', 'C16']),
                            Clause('pipeline.config', 'r.config == config', ['C10']),
                            Clause('pipeline.unanchored_result_passed_a_selfcheck_or_is_the_fallback',
-                                  'config.is_start_anchor_disabled && config.is_end_anchor_disabled ==> selfcheck_rot_ok(erase(r.ast), final(test_cases)@) || selfcheck_ok(erase(r.ast), final(test_cases)@) || built_by_new_alternation(erase(r.ast))', ['C08'])],
+                                  'config.is_end_anchor_disabled ==> selfcheck_rot_ok(erase(r.ast), final(test_cases)@) || selfcheck_ok(erase(r.ast), final(test_cases)@) || built_by_new_alternation(erase(r.ast))', ['C08'])],       # without `$` nothing forces a match to reach the end of the test case: the order of the alternatives must do it, and only the self-check looks at that (with `$` and no `^` the leftmost match of a word of the language starts at 0 and must end at the end)
                   loops={1: ['it1.seq() == gc0', '0 <= it1.index@ <= gc0.len()',
                              ('pipeline.fallback_alternation@loop1', ['C01', 'C08', 'C16'], 'alt_lang(exprs@) == words(gc0.take(it1.index@))')]},
                   blocks=[(1, 'loop_before', '                    let ghost gc0 = grapheme_clusters@; proof { lemma_alt_lang_empty(); lemma_words_empty(); assert(gc0.take(0) =~= Seq::<GraphemeCluster>::empty()); }'),
